@@ -1,6 +1,6 @@
 import SyneTune.Lemmas.HBContractK5
 /-
-Scheduler contract K for promotion-type asynchronous Hyperband (ASHA, PASHA), used by the
+Scheduler contract K for promotion-type asynchronous Hyperband (ASHA, PASHA, cost-aware, RUSH), used by the
 loop theorems of C01 (`resume_only_paused`) and by C20: over EVERY history of scheduler
 operations, a `resume(t)` is only issued for a trial the scheduler itself has recorded as
 not running (its last decision was PAUSE or STOP and it has not been resumed since), and
@@ -69,11 +69,11 @@ theorem resume_only_not_running (s : Sched) (h : KInv s) (ops : List SOp) (newTi
   exact ⟨h2, fun t b m e => by obtain ⟨e1, e2⟩ := h3 t b m e; rw [e1]; exact e2⟩
 
 /-- the freshly constructed scheduler satisfies the invariant -/
-theorem init_KInv (ty : HBType) (hty : ty.plain) (mode : Mode) (maxT : Nat) (levels : List Nat)
-    (brackets : Nat) (perBracket : Bool) (sd : SearcherData) (my mra : Bool) :
-    KInv { mgr := Manager.init ty mode maxT levels brackets perBracket, searcherData := sd,
+theorem init_KInv (ty : HBType) (hty : ty.pauseResume = true) (mode : Mode) (maxT : Nat) (levels : List Nat)
+    (brackets : Nat) (perBracket : Bool) (numThr : Nat) (sd : SearcherData) (my mra hc : Bool) :
+    KInv { mgr := Manager.init ty mode maxT levels brackets perBracket numThr, searcherData := sd, hasCost := hc,
            pendingMyopic := my, maxResourceAttr := mra } := by
-  have hsys : ∀ sys ∈ (Manager.init ty mode maxT levels brackets perBracket).systems,
+  have hsys : ∀ sys ∈ (Manager.init ty mode maxT levels brackets perBracket numThr).systems,
       unpromotedOf sys.rungs = [] ∧ sys.running = [] := by
     intro sys hsys
     simp only [Manager.init, List.mem_map, List.mem_range] at hsys
@@ -100,9 +100,9 @@ theorem init_KInv (ty : HBType) (hty : ty.plain) (mode : Mode) (maxT : Nat) (lev
     simp only [unpromotedSys, List.mem_flatMap] at ht
     obtain ⟨sys, h1, h2⟩ := ht
     rw [(hsys sys h1).1] at h2; cases h2
-  · have : unpromotedSys (Manager.init ty mode maxT levels brackets perBracket).systems = [] := by
+  · have : unpromotedSys (Manager.init ty mode maxT levels brackets perBracket numThr).systems = [] := by
       unfold unpromotedSys
-      generalize (Manager.init ty mode maxT levels brackets perBracket).systems = ss at hsys
+      generalize (Manager.init ty mode maxT levels brackets perBracket numThr).systems = ss at hsys
       induction ss with
       | nil => rfl
       | cons a as ih =>
@@ -113,6 +113,6 @@ theorem init_KInv (ty : HBType) (hty : ty.plain) (mode : Mode) (maxT : Nat) (lev
 
 /-- non-vacuity: a concrete ASHA scheduler -/
 example : KInv { mgr := Manager.init .promotion .min 9 [1, 3] 1 false } :=
-  init_KInv .promotion (Or.inl rfl) .min 9 [1, 3] 1 false .rungs false false
+  init_KInv .promotion rfl .min 9 [1, 3] 1 false 0 .rungs false false false
 
 end SyneTune.C04K
